@@ -658,7 +658,7 @@ directory reads of generated file trees (non-mapping files, nested directories, 
 				// the loss this hypothesis keeps out of the theorem, observed: the source name does not come back, everything else does
 				let want = mm(norm(&drop_param_src(&m)).classes);
 				match impl_write_all(&m).ok().flatten().and_then(|t| impl_read(&t).ok().flatten()) {
-					Some(back) if mm(back.clone()).equiv(&want) && !mm(back).equiv(&mm(norm(&m).classes)) => r.count("viol-param-src-name:source_name_lost_nothing_else"),
+					Some(back) if mm(back.clone()).equiv(&want) && !mm(back.clone()).equiv(&mm(norm(&m).classes)) => r.count("viol-param-src-name:source_name_lost_nothing_else"),
 					Some(_) => r.count("viol-param-src-name:other_outcome"),
 					None => r.count("viol-param-src-name:not_written_or_not_read"),
 				}
